@@ -10,7 +10,7 @@ from fractions import Fraction
 
 from ..backends import backend_paths, reachable
 from ..kai import Arr, TupleV, cond_repr, interpret, flatten_and
-from ..kutil import (Spec, approx_equal, eval_cond, eval_rat, find_loops_over, guard_atoms, numeric, offsets,
+from ..kutil import (returned_arrays, Spec, approx_equal, eval_cond, eval_rat, find_loops_over, guard_atoms, numeric, offsets,
                      reads_in, show)
 from ..program import AnalysisIncomplete, Func, norm
 from ..sym import App, Rat, Sym, subst, walk_atoms
@@ -42,7 +42,7 @@ def stencil_facts(rep, prop, public, kern, k, label):
     mod = kern.module
     entry = '%s[numpy]' % public.name
     # the output array: the one returned
-    rets = [v for v, g in k.returns if isinstance(v, Arr)]
+    rets = returned_arrays(k)
     if len(rets) != 1:
         raise AnalysisIncomplete('%s: kernel %s does not return exactly one array' % (label, kern.qualname))
     out = rets[0]
